@@ -759,3 +759,35 @@ def bind_expr_on_window_expression(r):
     if how.get("op") != "bind_expr" or r.get("kind") != "c_compile_error":
         return False
     return bool(re.search(r"^\s*\w+ = \w+\[[^\]]*:", r.get("src") or "", flags=re.M))
+
+
+# ---------------------------------------------------------------------------
+# C14 (identified by the instruction and the kind of disagreement)
+
+
+def _c14(r, instr, kinds=("value",)):
+    return r.get("property") == "C14" and r.get("instr") == instr and r.get("kind") in kinds
+
+
+def c14_instr_prefix_load_zeroes_inactive_lanes(r):
+    return _c14(r, "mm256_prefix_load_ps") and "C gives 0.0" in str((r.get("detail") or {}).get("replay"))
+
+
+def c14_instr_maskz_loadu_zeroes_inactive_lanes(r):
+    return _c14(r, "mm512_maskz_loadu_ps") and "C gives 0.0" in str((r.get("detail") or {}).get("replay"))
+
+
+def c14_instr_mask_fmadd_copies_A(r):
+    return _c14(r, "mm512_mask_fmadd_ps") and "out_C" in str((r.get("detail") or {}).get("replay"))
+
+
+def c14_instr_mask_set1_ignores_mask(r):
+    return _c14(r, "mm512_mask_set1_ps") and "out_dst" in str((r.get("detail") or {}).get("replay"))
+
+
+def c14_instr_mask_storeu_byte_mask(r):
+    return _c14(r, "avx2_mask_storeu_ps")
+
+
+def c14_instr_fmadd_broadcast_illtyped(r):
+    return _c14(r, "mm256_fmadd_ps_broadcast", ("c_compile_error", "value"))
